@@ -42,19 +42,48 @@ def run(ctx):
     # frame line template: the appended expression containing 'File "'
     tmpl = None
     src_tmpl = None
+    pci = prog.cls('tbutils.ParsedException')
+    scope = [ts]
     for n in ast.walk(ts.node):
-        if isinstance(n, ast.Call) and isinstance(n.func, ast.Attribute) and n.func.attr == 'append' and n.args:
-            t = ast.unparse(n.args[0])
-            if 'File "' in t:
-                tmpl = n.args[0]
-            elif 'source_line' in t:
-                src_tmpl = n.args[0]
+        if isinstance(n, ast.Call) and isinstance(n.func, ast.Attribute) and isinstance(n.func.value, ast.Name) and \
+                n.func.value.id in ('self', 'cls', 'ParsedException'):
+            h = pci.own(n.func.attr)
+            if h is not None and hasattr(h, 'node') and h not in scope:
+                scope.append(h)
+        if isinstance(n, ast.Call) and isinstance(n.func, ast.Name) and n.func.id in mod.functions:
+            scope.append(mod.functions[n.func.id])
+    tmpl_fn = ts
+    for fn in scope:
+        for n in ast.walk(fn.node):
+            cand = None
+            if isinstance(n, ast.Call) and isinstance(n.func, ast.Attribute) and n.func.attr == 'append' and n.args:
+                cand = n.args[0]
+            elif isinstance(n, (ast.List, ast.Tuple)):
+                for el in n.elts:
+                    if 'File "' in ast.unparse(el) and tmpl is None:
+                        tmpl, tmpl_fn = el, fn
+                    elif 'source_line' in ast.unparse(el) and src_tmpl is None and isinstance(el, (ast.JoinedStr, ast.BinOp, ast.Call)):
+                        src_tmpl = el
+            elif isinstance(n, ast.Assign) and isinstance(n.value, (ast.JoinedStr, ast.BinOp, ast.Call)):
+                cand = n.value
+            if cand is not None:
+                t = ast.unparse(cand)
+                if 'File "' in t and tmpl is None and isinstance(cand, (ast.JoinedStr, ast.BinOp, ast.Call)):
+                    tmpl, tmpl_fn = cand, fn
+                elif 'source_line' in t and src_tmpl is None and isinstance(cand, (ast.JoinedStr, ast.BinOp)):
+                    src_tmpl = cand
     if tmpl is None:
         raise AnalysisError('anchor vanished: frame-line template in ParsedException.to_string')
     wsegs, holes = format_skeleton(tmpl)
     ok = [wsegs[0].strip()] + wsegs[1:] == segs and wsegs[0].startswith('  ') and wsegs[0].strip() == segs[0]
     ctx.ob('T12.frame', ts.fq, 'frame line written %r matches the literals of _frame_re %r' % (wsegs, segs),
-           [s.strip() if i == 0 else s for i, s in enumerate(wsegs)] == segs, loc=loc(ts, tmpl))
+           [s.strip() if i == 0 else s for i, s in enumerate(wsegs)] == segs, loc=loc(tmpl_fn, tmpl))
+    # holes given through single-assignment locals (filepath = frame['filepath']) are resolved
+    single = {}
+    for n in ast.walk(tmpl_fn.node):
+        if isinstance(n, ast.Assign) and len(n.targets) == 1 and isinstance(n.targets[0], ast.Name):
+            single.setdefault(n.targets[0].id, []).append(n.value)
+    holes = [single[h.id][0] if isinstance(h, ast.Name) and len(single.get(h.id, [])) == 1 else h for h in holes]
     keys = []
     for h in holes:
         k = None
@@ -65,11 +94,14 @@ def run(ctx):
            keys == groups, loc=loc(ts, tmpl), detail='holes %s' % keys)
     # keys consumed vs produced
     consumed = set()
-    for n in ast.walk(ts.node):
-        if isinstance(n, ast.Subscript) and txt(n.value) == 'frame' and isinstance(n.slice, ast.Constant):
-            consumed.add(n.slice.value)
-        if isinstance(n, ast.Call) and txt(n.func) == 'frame.get' and n.args and isinstance(n.args[0], ast.Constant):
-            consumed.add(n.args[0].value)
+    fvars = {txt(h.value) for h in holes if isinstance(h, ast.Subscript)} or {'frame'}
+    for fn in scope:
+        for n in ast.walk(fn.node):
+            if isinstance(n, ast.Subscript) and txt(n.value) in fvars and isinstance(n.slice, ast.Constant):
+                consumed.add(n.slice.value)
+            if isinstance(n, ast.Call) and isinstance(n.func, ast.Attribute) and n.func.attr == 'get' and txt(n.func.value) in fvars \
+                    and n.args and isinstance(n.args[0], ast.Constant):
+                consumed.add(n.args[0].value)
     produced = set(groups)
     for n in ast.walk(fs.node):
         if isinstance(n, ast.Subscript) and isinstance(n.ctx, ast.Store) and isinstance(n.slice, ast.Constant):
@@ -86,8 +118,15 @@ def run(ctx):
               and n.func.attr in ('partition', 'split') and n.args and isinstance(n.args[0], ast.Constant) and 'exc' in txt(n.func.value)]
     wsep = None
     for n in ast.walk(ts.node):
+        cands = []
         if isinstance(n, ast.Call) and isinstance(n.func, ast.Attribute) and n.func.attr == 'append' and n.args:
-            s2, h2 = format_skeleton(n.args[0])
+            cands.append(n.args[0])
+        if isinstance(n, ast.Assign):
+            cands.append(n.value)
+        for cnd in cands:
+            if not isinstance(cnd, (ast.JoinedStr, ast.BinOp, ast.Call)):
+                continue
+            s2, h2 = format_skeleton(cnd)
             hs = [txt(h) for h in h2]
             if hs == ['self.exc_type', 'self.exc_msg']:
                 wsep = s2
@@ -113,7 +152,7 @@ def run(ctx):
     if src_tmpl is not None:
         s3, h3 = format_skeleton(src_tmpl)
         ok = s3 == ['    ', ''] and [txt(h) for h in h3] == ['source_line']
-    guarded = any(isinstance(n, ast.If) and txt(n.test) == 'source_line' for n in ast.walk(ts.node))
+    guarded = any(isinstance(n, ast.If) and txt(n.test) in ('source_line', 'not source_line') for fn in scope for n in ast.walk(fn.node))
     ctx.ob('T12.srcline', ts.fq, 'source line is written with the 4-space indent and only when present', ok and guarded, loc=ts.loc)
     # lines joined by newline
     joins = [n for n in ast.walk(ts.node) if isinstance(n, ast.Call) and isinstance(n.func, ast.Attribute) and n.func.attr == 'join'
@@ -134,8 +173,9 @@ def run(ctx):
            and s4[0].startswith('  ') and s4[-1] == '\n', loc=tf.loc, detail=str(s4))
     ctx.ob('T12.frame', tf.fq, 'holes are module_path, lineno, func_name', [txt(h) for h in h4] == ['self.module_path', 'self.lineno', 'self.func_name'], loc=tf.loc)
     line_ifs = [n for n in ast.walk(tf.node) if isinstance(n, ast.If) and 'self.line' in txt(n.test)]
-    ok = bool(line_ifs) and all(txt(n.test) in ('self.line', 'str(self.line)', 'str(self.line).strip()', 'len(self.line)', 'len(self.line) > 0')
-                                for n in line_ifs)
+    from rules.common import strip_not
+    ok = bool(line_ifs) and all(txt(strip_not(n.test)[0]) in ('self.line', 'str(self.line)', 'str(self.line).strip()', 'len(self.line)',
+                                                              'len(self.line) > 0') for n in line_ifs)
     ctx.ob('T19.line', tf.fq, 'the source line is emitted only when it is non-empty (truthiness test; the interpreter prints nothing '
            'for a frame without source)', ok, loc=loc(tf, line_ifs[0]) if line_ifs else tf.loc, detail=[txt(n.test) for n in line_ifs].__repr__())
     # _DeferredLine.__str__: checkcache before getline
